@@ -334,6 +334,8 @@ class Program:
                         for a, b in zip(t.elts, st.value.elts):
                             if isinstance(a, ast.Name):
                                 out[a.id] = b
+            elif isinstance(st, ast.AnnAssign) and isinstance(st.target, ast.Name) and st.value is not None:
+                out[st.target.id] = st.value           # NAME: type = value
         return out
 
     def resolve_name(self, m: Module, name: str, cls: Optional[ClassInfo] = None):
